@@ -5,7 +5,13 @@ use std::io;
 use std::path::{Path, PathBuf};
 use std::sync::Arc;
 use std::sync::atomic::{AtomicU64, Ordering};
+#[cfg(not(feature = "verif"))]
 use std::time::{Duration, Instant, SystemTime, UNIX_EPOCH};
+#[cfg(feature = "verif")]
+use std::time::Duration;
+
+#[cfg(feature = "verif")]
+use sierradb::verif::{Instant, SystemTime, UNIX_EPOCH};
 
 use bincode::{Decode, Encode};
 use kameo::Reply;
@@ -439,22 +445,32 @@ impl BucketConfirmationManager {
         let current_path = self.get_current_state_path(bucket_id);
         let previous_path = self.get_previous_state_path(bucket_id);
 
+        #[cfg(feature = "verif")]
+        sierradb::verif::point("confirm:persist", 0, bucket_id as u64);
         {
             let mut file = File::create(&temp_path).await?;
             file.write_all(&state_bincode).await?;
             file.sync_all().await?;
         }
+        #[cfg(feature = "verif")]
+        sierradb::verif::point("confirm:persist", 1, bucket_id as u64);
 
         // If current file exists, make it the previous backup
         if current_path.exists() {
             if previous_path.exists() {
                 fs::remove_file(&previous_path).await?;
+                #[cfg(feature = "verif")]
+                sierradb::verif::point("confirm:persist", 2, bucket_id as u64);
             }
             fs::rename(&current_path, &previous_path).await?;
+            #[cfg(feature = "verif")]
+            sierradb::verif::point("confirm:persist", 3, bucket_id as u64);
         }
 
         // Make temp file the current file
         fs::rename(&temp_path, &current_path).await?;
+        #[cfg(feature = "verif")]
+        sierradb::verif::point("confirm:persist", 4, bucket_id as u64);
 
         info!("wrote bucket confirmations to disk");
 
